@@ -22,7 +22,8 @@ RULE = ("histories of 1-40 calls (thorough: up to 70000, crossing the 16-bit wra
         "read / attribute write / stream fetch; MAX_RETRIES 0,1,2; initial sequence number 0, near 65535 or random; the fault "
         "script gives every CONNECT and INVOKE message one of: delivered, reply lost, reply late (cut anywhere), reply cut at "
         "any offset + reset, reset before / after processing, stale reply of the a-th previous send replayed, stale CONNECTOK "
-        "replayed, seq altered, reply duplicated, KeyboardInterrupt while waiting.  Part is systematic (every kind x every "
+        "replayed, seq altered, reply duplicated, KeyboardInterrupt while waiting; the proxy's own _pyroMaxRetries may differ from "
+        "config.MAX_RETRIES, it may run in wire-level response mode, and one BatchProxy object is re-used across submits.  Part is systematic (every kind x every "
         "fault x {on the handshake, on the first call, on a later call} x retries), part random from VERIF_SEED.  A history is "
         "non-trivial when at least one fault other than `delivered` was consumed and at least one call returned; distinct = "
         "distinct (retries, seq0 class, call kinds, consumed script)")
